@@ -1343,7 +1343,17 @@ def r9_error_reference_resolves_to_its_own_response(ctx):
     c07.r9_error_reference_names_the_stored_response(Renamed(ctx, "C06.R9", "the error-response reference of an operation is formatted from the very name its response is stored under"))
 
 
-RULES = [("C06.R9", r9_error_reference_resolves_to_its_own_response), ("C06.R8", r8_path_templates_are_openapi_templates), ("C06.R1", r1_same_filter), ("C06.R2", r2_unpublished), ("C06.R3", r3_placement), ("C06.R4", r4_refs_resolve), ("C06.R4b", r4b_dependencies_transitive),
+def r10_unpublished_flag_reaches_registration(ctx):
+    """`unpublished endpoints are omitted yet still served`, `one operation for each published endpoint`: the `unpublished` argument of a
+    declaration is the flag the endpoint is registered with -- every attribute argument reaches the same-named field of the validated
+    metadata.  This is C19.R2a, re-evaluated here (adversary change C06-N: ChannelMetadata::validate built its result with `unpublished:
+    deprecated, deprecated: unpublished`, so an unpublished channel was listed and a deprecated one vanished from the document)."""
+    from . import c19
+    from .lib_c01 import Renamed
+    c19.r2a_validate(Renamed(ctx, "C06.R10", "the `unpublished` (and every other) argument of an endpoint or channel declaration reaches the same-named field of the metadata the endpoint is registered with"))
+
+
+RULES = [("C06.R10", r10_unpublished_flag_reaches_registration), ("C06.R9", r9_error_reference_resolves_to_its_own_response), ("C06.R8", r8_path_templates_are_openapi_templates), ("C06.R1", r1_same_filter), ("C06.R2", r2_unpublished), ("C06.R3", r3_placement), ("C06.R4", r4_refs_resolve), ("C06.R4b", r4b_dependencies_transitive),
          ("C06.R5", r5_determinism), ("C06.R6", r6_idempotent), ("C06.R7", r7_order_independent)]
 
 AD = "dropshot/src/api_description.rs"
